@@ -390,8 +390,17 @@ class Grid(object):
                       + f" data has {ncols}, but expects {self.ncols}."
             raise ValueError(errmess)
 
-        self._data = np.clip(_value, self.mindata,
-                             self.maxdata).astype(self.dtype)
+        self._data = self._clipdata(_value)
+
+    def _clipdata(self, value):
+        """ Clip data to [mindata, maxdata] and cast to grid dtype.
+        Clipping is skipped when no bound is set to avoid converting
+        integer data to float (loss of precision beyond 2^53).
+        """
+        if self.mindata == -np.inf and self.maxdata == np.inf:
+            return value.astype(self.dtype)
+
+        return np.clip(value, self.mindata, self.maxdata).astype(self.dtype)
 
     @property
     def nodata(self):
@@ -499,8 +508,7 @@ class Grid(object):
                       + f" expecting {nval}."
             raise ValueError(errmess)
 
-        self._data = np.clip(data.reshape((self.nrows, self.ncols)),
-                             self.mindata, self.maxdata).astype(self.dtype)
+        self._data = self._clipdata(data.reshape((self.nrows, self.ncols)))
 
     def to_dict(self):
         """ Export grid metadata to json """
